@@ -17,7 +17,7 @@ LEVEL_NOTE = ("Trusted: the insert-only alignment (bounded backtracking) accepts
 RULE = ("case = (a) generated tree, sizes tiny/8K/64K/256K, CRLF and multi-byte variants, or (b) 1-4 corpus files, some with "
         "UTF-8-preserving mutations; one edit run with 0-6 benign faults (short on n-th READ/WRITE, EINTR on n-th READ/WRITE/OPEN). "
         "Non-trivial = at least one token inserted; distinct = case index.")
-PROBES = ["non_utf8_source", "id_range_runs_out", "bom_file", "short_write_retried", "short_read_retried", "eintr_retried", "multi_drain", "crlf_file", "corpus_world", "mutated_corpus",
+PROBES = ["hard_fault_run", "non_utf8_source", "id_range_runs_out", "bom_file", "short_write_retried", "short_read_retried", "eintr_retried", "multi_drain", "crlf_file", "corpus_world", "mutated_corpus",
           "large_file_256k", "existing_refs_present"]
 ASSUMPTIONS = ["no fault other than short counts / EINTR is injected here (strict equality otherwise)"]
 DEADLINE = {"quick": 200, "thorough": 3000}
@@ -51,7 +51,7 @@ def gen(rng):
         sizes = rng.choice([["tiny"], ["k8", "tiny"], ["k64", "k8"], ["k256", "k64", "tiny"]])
         wm = world.gen_world_model(rng, use_cache=rng.choice([False, None, True]), nfiles=rng.randrange(1, 4), sizes=sizes,
                                    p_have=0.4, max_stmts=5, min_missing=1, crlf_p=0.25,
-                                   unicode_p=rng.choice([0.0, 0.0, 0.3, 0.9]))
+                                   unicode_p=rng.choice([0.0, 0.0, 0.3, 0.9]), big_p=0.01)
         if "k256" in sizes:
             tags.add("large_file_256k")
         if rng.random() < 0.06 and world.cfg_uses_lock(wm["cfg"]):
@@ -119,7 +119,7 @@ def evaluate(wm, knobs, plan, ctx):
     digest = hashlib.sha256((res.trace_digest() + core.digest_world(run["after"])).encode()).hexdigest()
     scenario = {"wm": world.wm_to_json(wm), "knobs": knobs, "plan": plan}
     fired = res.fired_counts()
-    sched = "benign-faults" if fired else "fault-free"
+    sched = ("hard-fault" if plan.get("hard") else "benign-faults") if fired else "fault-free"
     viols = []
 
     def V(sym, what):
@@ -161,6 +161,19 @@ def evaluate(wm, knobs, plan, ctx):
 def run_case(rng, idx, tier, ctx):
     wm, knobs, plan, tags = gen(rng)
     viols, info = evaluate(wm, knobs, plan, ctx)
+    if rng.random() < 0.15:
+        # the same tree with one hard failure while the new content is created (disk full, file size limit, I/O error at the
+        # n-th scratch write / create / rename): whatever the run then reports, every file is still original + tokens
+        kind = rng.choice(["WRITE", "WRITE", "WRITE", "OPEN_W", "RENAME"])
+        f = {"from": 1, "kinds": [kind], "pre": "tmp/", "nth": rng.randrange(1, 7), "act": "fail",
+             "errno": rng.choice(["ENOSPC", "EFBIG", "EIO", "EDQUOT"] if kind == "WRITE" else ["EACCES", "ENOSPC", "EXDEV"][:3 if kind == "RENAME" else 2])}
+        if kind == "WRITE" and rng.random() < 0.4:
+            f["act"], f["frac"] = "torn", rng.choice([0.1, 0.5, 0.9])
+        plan2 = {"seed": plan["seed"], "perm": True, "faults": [f], "hard": True}
+        vs, info2 = evaluate(wm, knobs, plan2, ctx)
+        if info2["fired"]:
+            ctx.probes["hard_fault_run"] += 1
+        viols += vs
     for t in tags:
         ctx.probes[t] += 1
     res = info["res"]
